@@ -208,6 +208,34 @@ pub enum SnapFmt {
     /// TOML text (a format whose integers are signed 64-bit: unsigned words arrive through the
     /// deserializer's i64 path whenever they fit); a value the format cannot express is "not written"
     Toml,
+    /// JSON of a user struct that embeds the generator with `#[serde(flatten)]` (the generator's fields
+    /// sit next to the struct's own; deserialisation goes through serde's buffered `Content` and the
+    /// `fields` list the type passes to `deserialize_struct`)
+    JsonFlatten,
+    /// JSON of an internally tagged enum (`#[serde(tag = "type")]`) whose variant holds the generator
+    JsonTagged,
+    /// JSON of an untagged enum: the generator is whichever variant deserialises
+    JsonUntagged,
+}
+
+#[derive(Serialize, Deserialize)]
+pub struct Flat<T> {
+    pub step: u64,
+    #[serde(flatten)]
+    pub rng: T,
+    pub tail: u32,
+}
+#[derive(Serialize, Deserialize)]
+#[serde(tag = "type")]
+pub enum Tagged<T> {
+    Gen(T),
+    Other { x: u8 },
+}
+#[derive(Serialize, Deserialize)]
+#[serde(untagged)]
+pub enum Untagged<T> {
+    Other { nothing_like_a_generator: u8 },
+    Gen(T),
 }
 
 /// A reader over a byte image that returns at most 1..5 bytes per call (deterministic in the position).
@@ -581,6 +609,9 @@ macro_rules! m_snap {
                 SnapFmt::JsonReader => Some(serde_json::to_vec_pretty($s).expect("json serialize")),
                 SnapFmt::JsonValue => Some(serde_json::to_vec(&serde_json::to_value($s).expect("json to_value")).expect("json serialize")),
                 SnapFmt::Toml => toml::to_string($s).ok().map(|t| t.into_bytes()),
+                SnapFmt::JsonFlatten => Some(serde_json::to_vec(&Flat { step: 3, rng: $s, tail: 7 }).expect("json serialize")),
+                SnapFmt::JsonTagged => Some(serde_json::to_vec(&Tagged::Gen($s)).expect("json serialize")),
+                SnapFmt::JsonUntagged => Some(serde_json::to_vec(&Untagged::Gen($s)).expect("json serialize")),
             }
         }
         #[cfg(not(feature = "snap"))]
@@ -616,6 +647,17 @@ macro_rules! m_restore {
                 SnapFmt::JsonReader => serde_json::from_reader(ShortReader { data: $bytes, pos: 0 }).map_err(|e| e.to_string()),
                 SnapFmt::JsonValue => serde_json::from_slice::<serde_json::Value>($bytes).and_then(serde_json::from_value).map_err(|e| e.to_string()),
                 SnapFmt::Toml => toml::from_str(std::str::from_utf8($bytes).map_err(|e| e.to_string())?).map_err(|e| e.to_string()),
+                SnapFmt::JsonFlatten => serde_json::from_slice::<Flat<$t>>($bytes).map_err(|e| e.to_string()).and_then(|f| {
+                    if f.step == 3 && f.tail == 7 { Ok(f.rng) } else { Err("the embedding struct's own fields came back changed".to_string()) }
+                }),
+                SnapFmt::JsonTagged => serde_json::from_slice::<Tagged<$t>>($bytes).map_err(|e| e.to_string()).and_then(|f| match f {
+                    Tagged::Gen(g) => Ok(g),
+                    _ => Err("the other variant came back".to_string()),
+                }),
+                SnapFmt::JsonUntagged => serde_json::from_slice::<Untagged<$t>>($bytes).map_err(|e| e.to_string()).and_then(|f| match f {
+                    Untagged::Gen(g) => Ok(g),
+                    _ => Err("the other variant came back".to_string()),
+                }),
             };
             r.map(|g| Box::new($w(Placed::new(g))) as Box<dyn DynGen>)
         }
@@ -651,6 +693,23 @@ macro_rules! construct_m {
                 let g = if call_generic() { <$t as SeedableRng>::from_rng(&mut s) } else { <$t>::from_rng(&mut s) };
                 let rep = SourceReport { pos: s.pos, calls: s.calls, log: s.log, fired: false };
                 $okc(wrap(g), Some(rep))
+            }
+            SeedSpec::TryFromRng(src) if src.fault.as_ref().map(|f| f.token % 3 == 0).unwrap_or(src.key % 3 == 0) => {
+                // every third fallible source has an error type of size zero (a unit struct): the token is
+                // then taken from the source's own record
+                let mut s = crate::seams::source::FallibleSourceUnit(FallibleSource::new(src.clone()));
+                let r = if call_generic() { <$t as SeedableRng>::try_from_rng(&mut s) } else { <$t>::try_from_rng(&mut s) };
+                let s = s.0;
+                let rep = SourceReport {
+                    pos: s.inner.pos,
+                    calls: s.inner.calls,
+                    log: s.inner.log,
+                    fired: s.fired,
+                };
+                match r {
+                    Ok(g) => $okc(wrap(g), Some(rep)),
+                    Err(_) => $errc(src.fault.as_ref().map(|f| f.token).unwrap_or(0), rep),
+                }
             }
             SeedSpec::TryFromRng(src) => {
                 let mut s = FallibleSource::new(src.clone());
@@ -1162,6 +1221,15 @@ pub fn restore_core(kind: CoreKind, fmt: SnapFmt, bytes: &[u8]) -> Result<Box<dy
                 SnapFmt::JsonReader => serde_json::from_reader(ShortReader { data: bytes, pos: 0 }).map_err(|e| e.to_string()),
                 SnapFmt::JsonValue => serde_json::from_slice::<serde_json::Value>(bytes).and_then(serde_json::from_value).map_err(|e| e.to_string()),
                 SnapFmt::Toml => toml::from_str(std::str::from_utf8(bytes).map_err(|e| e.to_string())?).map_err(|e| e.to_string()),
+                SnapFmt::JsonFlatten => serde_json::from_slice::<Flat<T>>(bytes).map(|f| f.rng).map_err(|e| e.to_string()),
+                SnapFmt::JsonTagged => serde_json::from_slice::<Tagged<T>>(bytes).map_err(|e| e.to_string()).and_then(|f| match f {
+                    Tagged::Gen(g) => Ok(g),
+                    _ => Err("the other variant came back".to_string()),
+                }),
+                SnapFmt::JsonUntagged => serde_json::from_slice::<Untagged<T>>(bytes).map_err(|e| e.to_string()).and_then(|f| match f {
+                    Untagged::Gen(g) => Ok(g),
+                    _ => Err("the other variant came back".to_string()),
+                }),
             }
         }
         match kind {
